@@ -82,7 +82,7 @@ def round_trips(ctx, items, stats):
 # ----------------------------------------------------------------------------- option records
 
 T_VALUES = [0, 0.125, 1.0, 2.5, 1e-12, 1e12, 1 / 3]
-A_VALUES = [0, 0.5, -0.5, 2.0, -2.0, 1e-12, -1e-12, 1e12, -1e12, 1 / 3, -1 / 3, -0.0866433976, 123456.789, -123456.789]
+A_VALUES = [0, 0.5, -0.5, 2.0, -2.0, 1e-12, -1e-12, 1e12, -1e12, -1e16, -2.5e17, 1e16, -1e22, -9999999999999998.0, 1 / 3, -1 / 3, -0.0866433976, 123456.789, -123456.789]
 X_VALUES = [0, 0.25, 1.0, 3.0, 1e-12, 1e12, 1 / 3]
 P_VALUES = [0, 0.125, 0.5, 1.0, 1 / 3, 1e-12]
 I_VALUES = [1, 2, 10]
